@@ -419,6 +419,30 @@ def updateAutovalues (logly : Nat → Bool) (autos : List (Nat × Expr)) (v : Va
   let arr := steadyArray logly v
   { v with level := updMany v.level (autos.map (fun (q, e) => (q, e.eval arr 0))) }
 
+/-! ### Which version of an equation the steady machinery uses; how the linear algorithm forms its constants -/
+
+/-- a model equation `dynamic !! steady`; `steady = none` when no separate steady version is written -/
+structure Equation where
+  dynamic : Expr
+  steady : Option Expr := none
+
+/-- the steady-state version: the part after `!!` when present, else the only version. Both steady algorithms --
+the block loop (`wrt.equations` = steady equation objects) and `_steady_linear` (`steady_descriptor`) -- work on it -/
+def Equation.steadyVersion (e : Equation) : Expr := e.steady.getD e.dynamic
+
+def steadyEquations (eqs : List Equation) : List Expr := eqs.map Equation.steadyVersion
+
+/-- the point at which the first-order system of a linear model is expanded: parameters at their values,
+every other quantity at zero (1 for a log-variable, i.e. log = 0) -- endogenous *and exogenous* variables alike,
+which is the recorded finding `linear-steady-ignores-exogenous-variables` -/
+def zeroPoint (isParam logly : Nat → Bool) (level : Nat → Cell) : SArray :=
+  fun q _ => if isParam q then level q else some (if logly q then 1 else 0)
+
+/-- the constant vector `C` (resp. `H`) of `A ξ_t + B ξ_{t-1} + C = 0`: the steady version of each equation
+evaluated at the zero point -/
+def linearConstants (isParam logly : Nat → Bool) (level : Nat → Cell) (eqs : List Equation) : List Cell :=
+  (steadyEquations eqs).map (Expr.eval (zeroPoint isParam logly level) 0)
+
 /-! ### Linear steady state from the unsolved system `A ξ_t + B ξ_{t-1} + C = 0`, `F y + G ξ + H = 0` -/
 
 namespace Linear
